@@ -148,6 +148,23 @@ def gen(rng, tier, shard, batch):
                 reqs += group(rng, "divr", ty, rng.choice("lrb"), n)
             else:
                 reqs += group(rng, "quant", ty, rng.choice("lrb"), None)
+        # comparison groups with i128 values whose scaling wraps onto the Decimal's coefficient
+        for _ in range(6):
+            k = rng.randrange(1, 19)
+            a = rng.randrange(M // P10[k] + 1, min(M, 3 * (M // P10[k] + 1)) + 1) * rng.choice((1, -1))
+            w = G.wrap_twin(a, k)
+            if w is None:
+                continue
+            reqs += ["cmpall * %s %s" % (G.fD(w, k), G.fD(a, 0)), "cmpall * %s i128:%d" % (G.fD(w, k), a),
+                     "cmpall * %s %s" % (G.fD(a, 0), G.fD(w, k)), "cmpall * i128:%d %s" % (a, G.fD(w, k))]
+        # exact integral quotients beyond 1.7e20 (the 18-digit result would not fit)
+        for _ in range(6):
+            ty = rng.choice(OP_INT_TYPES)
+            lo, hi = INT_TYPES[ty]
+            v = rng.choice([x for x in (2, 3, 5, 10, 100, -2, -10, min(hi, 10 ** 9)) if lo <= x <= hi])
+            t = rng.randrange(10 ** 21, M // abs(v))
+            for op in ("div", "cdiv"):
+                reqs += ["%s * %s %s" % (op, G.fD(t * v, 0), G.fD(v, 0)), "%s * %s %s" % (op, G.fD(t * v, 0), G.fI(ty, v))]
         # Decimal/Decimal only ops: all forms must agree
         for _ in range(N_GROUPS[tier] // 5):
             a, b = G.dec(rng), G.dec(rng)
